@@ -34,7 +34,7 @@ LEVEL = ("25 saveable classes (axes, discrete functions, operators, Hamiltonian 
          "original ones. Histories of 2-8 savedir calls of 2-3 objects into one or two directories (automatic and explicit "
          "tags) are compared with a tag -> object dictionary after every step or at the end. Export also for Hamiltonians and operators inside unit / basis contexts, spectra on frequency axes received into a place-holder axis, density-matrix evolutions of 2-4 states, and functions on time and frequency axes. All 5 export formats x real/complex x (N,) / (N,M) x with/without axis are enumerated for "
          "DFunction (DataSaveable) and Operator (MatrixData)."
-         " Later additions: deterministic grid of every saveable class x units contexts; directory histories with unordered and string tags; type sums of two-dimensional responses; exported data of any overall magnitude.")
+         " Later additions: deterministic grid of every saveable class x units contexts; directory histories with unordered and string tags; type sums of two-dimensional responses; exported data of any overall magnitude. Round five: single-row arrays in binary formats; interpolated values of saved bath functions.")
 NOTE = ("The class registry and the observable extractors are hand-enumerated; a class not in the registry is not seen. "
         "Text formats are compared to 1e-15 relative, binary formats exactly. Context operators are real symmetric. Two-dimensional export data have >= 2 "
         "columns (an (N,1) array cannot be told from (N,) in the text/axis protocol).")
